@@ -40,6 +40,8 @@ pub struct LogInner {
     pub radio_calls: usize,
     /// Inject an error into radio call number k (0-based, counted over the log's lifetime).
     pub fault_at: Option<usize>,
+    /// a second fault position armed at the same time (two radio calls in a row failing)
+    pub fault_also: Option<usize>,
     pub faults_injected: u32,
     // async radio script
     pub rx_single_queue: std::collections::VecDeque<Option<Vec<u8>>>,
@@ -66,7 +68,7 @@ fn radio_call(log: &Log, what: &'static str) -> Result<(), RadioErr> {
     let mut l = log.borrow_mut();
     let k = l.radio_calls;
     l.radio_calls += 1;
-    if l.fault_at == Some(k) {
+    if l.fault_at == Some(k) || l.fault_also == Some(k) {
         l.faults_injected += 1;
         l.ev.push(Ev::Fault(what));
         return Err(RadioErr(what));
